@@ -453,3 +453,99 @@ def concurrent_purity(ctx, codes, jobs, rng, runs, cls="concurrent_calls", nthre
                 ctx.count("watchdog_inconclusive")
     finally:
         hooks.uninstall()
+
+
+def reentrant_purity(ctx, codes, jobs, rng, runs, cls="reentrant_calls", max_points=24):
+    """Same-thread re-entrancy (what a signal handler, a GC finaliser, a __del__ or a trace hook does): while call A is
+    suspended at a line of `codes`, call B (other arguments) runs to completion on the SAME thread, then A resumes.  Both results
+    must equal the sequential ones.  Locks and thread-local storage do not protect against this; only the absence of
+    call-spanning module state does.  Every line event of A is an injection point (sampled beyond max_points)."""
+    hooks = LineHooks()
+    hooks.install(codes, None)
+    st = {"n": 0, "at": None, "inner": None, "busy": False, "inner_res": None}
+
+    def cb(code, line):
+        if st["busy"]:
+            return
+        st["n"] += 1
+        if st["n"] == st["at"]:
+            st["busy"] = True
+            try:
+                try:
+                    st["inner_res"] = ("ok", st["inner"][1](*st["inner"][2]))
+                except Exception as e:
+                    st["inner_res"] = ("exc", e)
+            finally:
+                st["busy"] = False
+    hooks.free_running = cb
+
+    def judge(job, res, role, other):
+        label, fn, args, expected = job
+        sa = args if len(repr(args)) < 200 else "(...)"
+        if res[0] == "exc":
+            ctx.violation("raises_when_reentered:" + label, "%s%r raised %s: %s when %s (%s) on the same thread" % (label, sa, type(res[1]).__name__, res[1], role, other), dict(job=label, other=other))
+            return
+        good = expected(res[1]) if callable(expected) else res[1] == expected
+        if not good:
+            ctx.violation("wrong_when_reentered:" + label, "%s%r = %r when %s (%s) on the same thread, sequential result %r" % (label, sa, res[1], role, other, None if callable(expected) else expected),
+                          dict(job=label, other=other))
+    try:
+        for _ in range(runs):
+            A = jobs[rng.randrange(len(jobs))]
+            B = jobs[rng.randrange(len(jobs))]
+            st.update(n=0, at=None, inner=None)
+            try:
+                A[1](*A[2])
+            except Exception:
+                continue
+            N = st["n"]
+            if N == 0:
+                ctx.count(cls + ".no_line_events")
+                continue
+            pts = list(range(1, N + 1)) if N <= max_points else sorted(rng.sample(range(1, N + 1), max_points))
+            for k in pts:
+                st.update(n=0, at=k, inner=B, inner_res=None)
+                try:
+                    ra = ("ok", A[1](*A[2]))
+                except Exception as e:
+                    ra = ("exc", e)
+                if st["inner_res"] is None:
+                    ctx.count(cls + ".injection_point_not_reached")
+                    continue
+                ctx.case(cls, key="%s<-%s|%d" % (A[0], B[0], min(k, 12)), nontrivial=True)
+                judge(A, ra, "interrupted at its line event %d by" % k, B[0])
+                judge(B, st["inner_res"], "run inside the interrupted", A[0])
+    finally:
+        hooks.free_running = None
+        hooks.uninstall()
+
+
+class fresh_ecdsa(object):
+    """with fresh_ecdsa() as M: a NEW private instance of the whole ecdsa package (all module-level state as on first import:
+    lazy tables, memos, generator objects), installed in sys.modules for the duration so that pickling resolves to it."""
+    SUBS = ("numbertheory", "ellipticcurve", "curves", "ecdsa", "keys", "util", "der", "rfc6979", "ecdh", "_compat", "_rwlock", "errors", "eddsa", "_sha3")
+
+    def __enter__(self):
+        import importlib
+        self.saved = {k: sys.modules.pop(k) for k in list(sys.modules) if k == "ecdsa" or k.startswith("ecdsa.")}
+        M = importlib.import_module("ecdsa")
+        for s_ in self.SUBS:
+            try:
+                importlib.import_module("ecdsa." + s_)
+            except ImportError:
+                pass
+        return M
+
+    def __exit__(self, *a):
+        for k in [k for k in sys.modules if k == "ecdsa" or k.startswith("ecdsa.")]:
+            del sys.modules[k]
+        sys.modules.update(self.saved)
+        return False
+
+
+def first_use_purity(ctx, codes_from, make_jobs, rng, runs, cls="first_use_calls", **kw):
+    """concurrent_purity where every run starts on a fresh instance of the package: the FIRST calls ever made into it are the
+    concurrent ones (lazy initialisation, first-use table builds)."""
+    for _ in range(runs):
+        with fresh_ecdsa() as M:
+            concurrent_purity(ctx, codes_from(M), make_jobs(M), rng, 1, cls=cls, **kw)
